@@ -28,6 +28,7 @@ def families(ctx, quick):
         fams.append(("scoping #%d" % k, lang.scoping_program(rng), ("vm", "native")))
         fams.append(("operand-order #%d" % k, lang.operand_order_program(rng), ("vm", "native")))
     fams.append(("argument-order (F-C02-2)", lang.ARG_ORDER_WITNESS, ("vm", "native")))
+    fams.append(("array-alias (F-C02-5)", lang.ALIAS_WITNESS, ("vm", "native")))
     fams.append(("strconv", lang.strconv_program(rng.sample(vals, 8) + [-9223372036854775808, -1000000000000000000]), ("vm", "native")))
     n = 40 if quick else 600
     nn = 8 if quick else 150
@@ -80,6 +81,9 @@ def run(ctx):
                     and sorted(res["out"].split()) == sorted(sem["out"].split()) and res["rc"] == 0:
                 ctx.known("F-C02-2", "native back end evaluates call arguments / array literal elements right to left (witness prints %s, reference %s)"
                           % (" ".join(res["out"].decode().split()[:3]), " ".join(sem["out"].decode().split()[:3])))
+            elif name.startswith("array-alias") and "F-C02-5" in ctx.findings and ctx.findings["F-C02-5"]["status"] == "known" \
+                    and res["rc"] == 0 and res["out"].split() == [b"3", b"3"] and sem["out"].split() == [b"2", b"3"]:
+                ctx.known("F-C02-5", "`let mut b = a` aliases the array on the %s engine: after (array_push b 3) the length of a is 3 (definition: 2)" % eng)
             else:
                 oracle_fail.append({"family": name, "engine": eng, "why": "engine differs from the reference semantics: " + why,
                                     "engine_stdout_tail": res["out"][-200:].decode(errors="replace"), "reference_stdout_tail": sem["out"][-200:].decode(errors="replace"),
